@@ -642,6 +642,34 @@ func init() {
 			// running evaluation) can call
 			obs := runDominatingRestore(c, "LOC.eval-restores", "lisp.(*LEnv).Eval", "lisp.LEnv.loc")
 			obs = append(obs, runDominatingRestore(c, "LOC.eval-restores", "lisp.(*LEnv).EvalContext", "lisp.LEnv.loc")...)
+			// ... and every other method of LEnv that runs the raw evaluator on ITS OWN environment
+			// (load, the funnel of every Load* entry point, evaluates the forms of a file in the
+			// environment it was called on): the evaluator moves that environment's location to each
+			// form, and whoever asked for the evaluation gets the environment back where it was
+			rawEval := c.LookupMethod("lisp.LEnv.eval")
+			done := map[string]bool{"lisp.(*LEnv).Eval": true, "lisp.(*LEnv).EvalContext": true, "lisp.(*LEnv).evalSExprCells": true}
+			if rawEval != nil {
+				for _, u := range c.Funcs(func(p string) bool { return rel(p) == "lisp" }) {
+					if u.Decl == nil || u.Decl.Body == nil || u.Decl.Recv == nil || len(u.Decl.Recv.List) != 1 || len(u.Decl.Recv.List[0].Names) != 1 || originOf(u.Obj) == rawEval || done[u.Name()] {
+						continue
+					}
+					info := u.Pkg.TypesInfo
+					recv := info.Defs[u.Decl.Recv.List[0].Names[0]]
+					own := false
+					for _, ce := range callsIn(u.Decl.Body, true) {
+						if originOf(Callee(info, ce)) != rawEval {
+							continue
+						}
+						if se, ok := ast.Unparen(ce.Fun).(*ast.SelectorExpr); ok && recv != nil && identObj(info, se.X) == recv {
+							own = true
+						}
+					}
+					if own {
+						done[u.Name()] = true
+						obs = append(obs, runDominatingRestore(c, "LOC.eval-restores", u.Name(), "lisp.LEnv.loc")...)
+					}
+				}
+			}
 			return obs
 		}})
 
